@@ -146,6 +146,81 @@ class Shadow:
         self.check_values(op)
         _ = before
 
+    def poison(self, sid, how):
+        """Assign a value on which a downstream node function raises (auto-update on): the assignment
+        fails in the middle of the sweep.  Whatever the model does about it, every node that still reports
+        itself up to date must hold the from-scratch value for the inputs the model now holds."""
+        import jax.numpy as jnp
+
+        from .gengraph import POISON
+
+        p = self.p
+        n = p.nodes[sid]
+        self.model.auto_update = True
+        self.auto = True
+        v = np.full(np.shape(p.cur_inputs[sid]), POISON, np.float32)
+        self.hist.append(["assign-poison", n.obj.name, how])
+        raised = False
+        try:
+            if how == "var":
+                p.var_objs[n.unit].value = jnp.asarray(v)
+            else:
+                n.obj.value = jnp.asarray(v)
+        except Exception:  # noqa: BLE001
+            raised = True
+        self.res.ev("poison_assignments_raised" if raised else "poison_assignments_harmless")
+        # resynchronise the shadow with what the model now holds / reports
+        p.cur_inputs[sid] = np.asarray(n.obj.value, np.float32)
+        self.dirty = {m.sid for m in p.nodes if m.caching and m.obj.outdated}
+        self._evals()
+        if raised:
+            self.res.mon("I6_coherent_after_failed_update")
+            self.check_values_partial("failed assignment (node function raised during the sweep)")
+        # recover with a healthy value: a full sweep must now succeed and clean everything
+        hv = self.value_for(sid, 3)
+        if how == "var":
+            p.var_objs[n.unit].value = jnp.asarray(hv)
+        else:
+            n.obj.value = jnp.asarray(hv)
+        p.cur_inputs[sid] = hv
+        self.hist.append(["assign", n.obj.name, how, hv.tolist(), True])
+        self.dirty = set()
+        self._evals()
+        self.check_all_uptodate("assignment after a failed one")
+        self.check_values("assignment after a failed one")
+
+    def check_values_partial(self, op):
+        """I1 restricted to nodes that do not depend on a poisoned input through a fragile function:
+        simply every up-to-date node whose from-scratch value is computable."""
+        from .gengraph import POISON
+
+        p = self.p
+        try:
+            self.check_values(op)
+        except ValueError:
+            # the oracle itself cannot evaluate nodes downstream of the poison: judge the others
+            val = {}
+            for n in p.nodes:
+                try:
+                    val[n.sid] = p.evaluate_one(n.sid)
+                except Exception:  # noqa: BLE001
+                    val[n.sid] = None
+            for n in p.nodes:
+                if n.kind in ("input", "seed", "group") or n.obj.outdated or val[n.sid] is None:
+                    continue
+                got = n.obj.value
+                exp = val[n.sid]
+                if n.kind in ("calc", "transient", "proxy"):
+                    ok = got is not None and arr_equal_bits(np.asarray(got), np.asarray(exp, np.float32))
+                else:
+                    ok = got is not None and np.allclose(np.asarray(got, np.float64), np.asarray(exp, np.float64), rtol=1e-5, atol=1e-4)
+                if not ok:
+                    self.res.violation("stale-after-failed-update", f"after {op}: node {self.nm(n.sid)} reports up to date but holds "
+                                       f"{np.asarray(got).tolist()} ; from-scratch value for the inputs the model now holds is "
+                                       f"{np.asarray(exp).tolist()}", self.w())
+                    return
+        _ = POISON
+
     def set_auto(self, flag):
         self.hist.append(["auto_update", flag])
         self.model.auto_update = bool(flag)
@@ -272,6 +347,8 @@ class Shadow:
                 self.read(op[1])
             elif k == "set_seed":
                 self.set_seed(op[1])
+            elif k == "poison":
+                self.poison(op[1], op[2])
             self.res.ev("ops")
             if len(self.res.violations) >= 3:
                 break
@@ -283,6 +360,7 @@ def gen_ops(rng, prog: Program, n_ops: int):
     settable = [(sid, how) for sid, how, _ in prog.settable()]
     nodes = [n.sid for n in prog.nodes]
     has_seed = any(n.kind == "seed" for n in prog.nodes)
+    has_fragile = any(u.get("fragile") for u in prog.units)
     ops = [["save", 0]]
     auto = True
     nslots = 1
@@ -333,7 +411,11 @@ def gen_ops(rng, prog: Program, n_ops: int):
             nslots += 1
         elif r < 0.91:
             ops.append(["restore", int(rng.integers(0, min(nslots, 4)))])
-        elif r < 0.97 or not has_seed:
+        elif r < 0.96 and has_fragile:
+            sid, how = settable[int(rng.integers(len(settable)))]
+            ops.append(["poison", sid, how])
+            auto = True
+        elif r < 0.985 or not has_seed:
             ops.append(["read", str(rng.choice(["log_prob", "state", "values"]))])
         else:
             ops.append(["set_seed", int(rng.integers(0, 1000))])
